@@ -31,6 +31,9 @@ type Case struct {
 	Indep  *gen.StateSpec `json:"indep,omitempty"`
 	Signer int            `json:"signer"`
 	Other  int            `json:"other"`
+	// RawData: both states get the no-app and these data values (a state of an
+	// app-less channel may carry data: the no-app admits every transition)
+	RawData *[2]uint64 `json:"rawdata,omitempty"`
 }
 
 func drawCase(t *rapid.T) Case {
@@ -47,6 +50,14 @@ func drawCase(t *rapid.T) Case {
 	}
 	c.Signer = rapid.IntRange(0, 3).Draw(t, "signer")
 	c.Other = rapid.IntRange(0, 3).Draw(t, "other")
+	if rapid.IntRange(0, 9).Draw(t, "rawdata") == 0 {
+		a := uint64(rapid.IntRange(0, 3).Draw(t, "d0"))
+		b := a
+		if rapid.Bool().Draw(t, "ddiff") {
+			b = uint64(rapid.IntRange(0, 3).Draw(t, "d1"))
+		}
+		c.RawData = &[2]uint64{a, b}
+	}
 	return c
 }
 
@@ -88,6 +99,15 @@ func runCase(c Case) *h.Outcome {
 	}
 	o.Fail = h.Guard(func() *h.Failure {
 		v, w := c.V.Build(), ws.Build()
+		if c.RawData != nil {
+			v.App, w.App = channel.NoApp(), channel.NoApp()
+			v.Data, w.Data = channel.NewMockOp(channel.MockOp(c.RawData[0])), channel.NewMockOp(channel.MockOp(c.RawData[1]))
+			if c.RawData[0] != c.RawData[1] {
+				o.Class("app-less-states-with-different-data")
+			} else {
+				o.Class("app-less-states-with-data")
+			}
+		}
 		ev, err1 := enc(v)
 		ew, err2 := enc(w)
 		if err1 != nil || err2 != nil {
@@ -101,7 +121,7 @@ func runCase(c Case) *h.Outcome {
 		} else {
 			o.Class("different-encoding")
 		}
-		o.Nontrivial = c.Indep == nil && applied == 1 && (!same || c.Muts[0].Kind == "imapnil")
+		o.Nontrivial = (c.Indep == nil && applied == 1 && (!same || c.Muts[0].Kind == "imapnil")) || (c.RawData != nil && c.RawData[0] != c.RawData[1])
 
 		// State
 		if got := v.Equal(w) == nil; got != same {
@@ -205,7 +225,7 @@ func runCase(c Case) *h.Outcome {
 	return o
 }
 
-const rule = "pairs (v,w) of valid states: w = v with one (10%: two) single-field mutations from the 27-kind alphabet of gen/mutate.go (id, version, final flag, app, data, one balance, one asset, one backend id, locked id/amount/index-map entry/length, nil-vs-empty index map, dimensions, swaps) or an independent state; oracle: Equal==nil <=> identical native encodings for State, Allocation, Balances, SubAlloc (both argument orders) and the helper comparisons; Verify(signer, w, Sign(signer, v)) <=> identical encodings; never verifies for another key. non-trivial = exactly one applicable mutation that changed the encoding (or the nil/empty index map neutral mutation); distinct by SHA-256 of the canonical case JSON"
+const rule = "pairs (v,w) of valid states: w = v with one (10%: two) single-field mutations from the 27-kind alphabet of gen/mutate.go (id, version, final flag, app, data, one balance, one asset, one backend id, locked id/amount/index-map entry/length, nil-vs-empty index map, dimensions, swaps) or an independent state; in a tenth of the pairs both states are app-less and carry (equal or different) data; oracle: Equal==nil <=> identical native encodings for State, Allocation, Balances, SubAlloc (both argument orders) and the helper comparisons; Verify(signer, w, Sign(signer, v)) <=> identical encodings; never verifies for another key. non-trivial = exactly one applicable mutation that changed the encoding (or the nil/empty index map neutral mutation); distinct by SHA-256 of the canonical case JSON"
 
 func TestEqualEncoding(t *testing.T) {
 	rec := h.Begin("C15", "")
